@@ -40,7 +40,7 @@ def _conv(x, y, op):
 
 class MatContract(Contract):
     alg = 'mat'; timeout_ms = 30000
-    property_ids = ('C07',)
+    property_ids = ('C07', 'C12')
     N = 3
     def native_init(self, name, arr, cfg):
         if name in ('A_data',) or (name == 'x_data' and self.qual.endswith('_inv')):
